@@ -12,6 +12,7 @@ Not decided: values of window functions; that a windowed column used in filter i
 import json
 import os
 
+import re
 from synq import (walk, show, show_stmts, strs, last_seg, pat_alts, pat_head, tail_expr, matches_of, mcalls, calls,
                   macros, lit_val, AnchorMissing)
 import tables
@@ -273,6 +274,36 @@ def r5(ctx, rep):
     sets = [show(n["rhs"], maxdepth=6) for n in walk(fl["body"]) if n.get("k") == "assign" and show(n["lhs"]) == "self.window"]
     rep.check(sets == ["WindowFrame{kind: kind, range: range}", "WindowFrame::default()"], "flatten:window-scope",
               f"the window arm must set the frame for its pipeline and reset it afterwards; assignments found: {sets}", file=fl["file"], line=fl["l"], fn=fl["path"])
+    # who may write which piece of the Flattener's state, per arm of the transform match
+    allowed = {"Sort": {"sort"}, "Group": {"sort", "sort_undone", "partition", "replace_map"}, "Window": {"window", "replace_map"},
+               "Append|Join": {"sort"}, "*": set()}
+    tm = None
+    for m in matches_of(fl["body"]):
+        if any("TransformKind::Sort" in show(a["pat"], maxdepth=6) for a in m["arms"]):
+            tm = m
+    if tm is None:
+        raise AnchorMissing("Flattener::fold_expr: match over TransformKind")
+    n_arms = 0
+    for arm in tm["arms"]:
+        pt = show(arm["pat"], maxdepth=8)
+        kinds = sorted(set(re.findall(r"TransformKind::(\w+)", pt)))
+        name = "|".join(kinds) if kinds else "*"
+        n_arms += 1
+        written = set()
+        for n in walk(arm["body"]):
+            t = None
+            if n.get("k") == "assign":
+                t = show(n["lhs"], maxdepth=4)
+            elif n.get("k") == "mcall" and n["m"] in ("clear", "clone_from", "insert", "remove", "push", "extend", "take", "replace"):
+                t = show(n["r"], maxdepth=4)
+            elif n.get("k") == "call" and last_seg(show(n["f"])) in ("take", "replace", "swap") and n["a"]:
+                t = show(n["a"][0], maxdepth=4).replace("&mut ", "")
+            if t and t.startswith("self."):
+                written.add(t.split(".")[1])
+        extra = written - allowed.get(name, set())
+        rep.check(not extra, f"flatten:state-writers:{name}", f"the `{name}` arm of the Flattener writes {sorted(extra)} of its state; allowed for this arm: {sorted(allowed.get(name, set()))} "
+                  "(e.g. a window block that clears the sort makes later rank/lag/row_number unordered)", file=fl["file"], line=arm["l"], fn=fl["path"])
+    rep.check(n_arms >= 5, "flatten:arms", f"expected the Sort, Group, Window, Append|Join and default arms, found {n_arms}", file=fl["file"], line=fl["l"], fn=fl["path"])
     # Lowerer::lower_pipeline builds rq::Window from the transform call
     lp = syn.fn("Lowerer::lower_pipeline", crate="prqlc")
     w = None
@@ -392,6 +423,13 @@ def r7(ctx, rep):
     rep.check("let can_materialize = (complexity <= required)" in show_stmts(cm["body"], maxdepth=8), "can_materialize", "a compute may be materialised where its complexity does not exceed what the requirements allow", file=cm["file"], line=cm["l"], fn=cm["path"])
 
 
+def r8(ctx, rep):
+    # a window function evaluated in the SELECT of a DISTINCT / LIMIT / set operation sees other rows than the pipeline says:
+    # the rows of the clause-order table that concern Compute followers are necessary for C04 as well
+    import C01
+    rep.borrowed(C01.r1, ctx, "C04.R8", "a windowed compute is evaluated on the rows its position in the pipeline denotes", only=r"^req:\w+:Compute$")
+
+
 def run(ctx, rep):
-    for r in (r1, r2, r3, r4, r5, r6, r7):
+    for r in (r1, r2, r3, r4, r5, r6, r7, r8):
         rep.guard(r, ctx)
